@@ -12,8 +12,9 @@ props = [json.loads(l)["id"] for l in open(VERIF / "properties.jsonl")]
 
 TRUST = ("Trusted base: Kani 0.68.0 / CBMC 6.11.0 / CaDiCaL; rustc MIR of the overlay build (dev profile, overflow checks on); "
          "dependency models in /verif/models (indexmap: inline-prefix linear map; bytes: value-semantics Vec-backed; tracing: no-op; "
-         "rand_distr: arbitrary non-negative finite sample), each validated by running the repository's own test-suites against it "
-         "(setup_cmd); Waker wake/clone/drop stubs (wake-ups are not part of any claimed clause); memory-safety and "
+         "rand_distr: arbitrary non-negative finite sample; for turmoil-fs an inline-storage model of std::path::{Path, PathBuf}, "
+         "validated against std::path on every normalised path of at most 6 bytes), each validated by running the repository's own "
+         "test-suites against it or by a differential test (setup_cmd); Waker wake/clone/drop stubs (wake-ups are not part of any claimed clause); memory-safety and "
          "assertion-reachability instrumentation off (functional claims only; vacuity is guarded by kani::cover! witnesses); "
          "the reference predicates written in the harnesses; the constructed pre-states being a superset of the reachable ones under "
          "the stated representation invariants (re-established by every step harness).")
